@@ -516,8 +516,27 @@ func dsRun(line string) (result, monitor string, nMsgs int, classes []string) {
 						}
 						return nil
 					}
+					_, _, queuedBefore, _, _ := d.Out.VerifOutState()
 					_, _ = w.objs[sid].Write(data)
 					d.Out.OnChunkAdded = nil
+					// bounded work: a Write of len(data) bytes on a session whose fragment size f was accepted by the
+					// server needs exactly ceil(len/f) non-empty chunks that together carry the data
+					if d.Frag > 0 && !d.Closed {
+						_, _, queued, _, _ := d.Out.VerifOutState()
+						if len(queued) >= len(queuedBefore) {
+							queued = queued[len(queuedBefore):]
+						}
+						total, empty := 0, 0
+						for _, c := range queued {
+							total += len(c)
+							if len(c) == 0 {
+								empty++
+							}
+						}
+						if total != len(data) || empty > 0 {
+							note(fmt.Sprintf("Write of %d bytes on a session with accepted downstream fragment size %d queued %d chunks (%d empty) carrying %d bytes after %d steps: the chunking loop does not make progress", len(data), d.Frag, len(queued), empty, total, want))
+						}
+					}
 					if d.Frag == 0 && !d.Closed {
 						note("Write on a session with downstream fragment size 0 does not terminate (stopped after 10000 empty chunks)")
 						return strings.Join(answers, ";") + "|HANG", monitor, nMsgs, append(classes, "HANG")
